@@ -183,7 +183,43 @@ def _history(item):
                 break
     except Exception:
         reuse = None
-    return {"id": "%s#%d" % (name, wk), "fn": name, "events": events, "seed": seed, "wk": wk, "reuse": reuse}
+    # round 17: two more histories of the same kind.  (a) the caller's arrays are READ-ONLY (np.frombuffer, a memory map, pandas
+    # copy-on-write): a function that does not modify its arguments needs no write access - an in-place operation that happens to
+    # leave the values unchanged (sorting a sorted array) is invisible to the digests above but raises here.  (b) the caller
+    # overwrites the arrays it was RETURNED and calls again with the same values: a result handed out by reference from a memo
+    # table comes back scribbled.
+    extra = {}
+    try:
+        W1 = recipes.World(random.Random(seed), False)
+        a1, kw1 = mk(W1)
+        plain = [_variant(a, "C") for a in a1]
+        o0, v0, _ = monitor.call(fn, tuple(plain), dict(kw1), budget=400000, wall=40)
+        if o0 == "returned":
+            n0 = _norm(v0)
+            ro = [_variant(a, "C") for a in a1]
+            for a in ro:
+                if isinstance(a, np.ndarray):
+                    a.setflags(write=False)
+            o1, v1, _ = monitor.call(fn, tuple(ro), dict(kw1), budget=400000, wall=40)
+            if o1 != "returned" or not _same(n0, _norm(v1)):
+                extra["readonly"] = {"writeable_arguments": json.dumps(n0)[:160], "read_only_arguments": json.dumps(_norm(v1))[:160] if o1 == "returned" else "%s %s" % (o1, str(v1)[:160])}
+
+            def scribble(v):
+                if isinstance(v, np.ndarray) and v.flags.writeable and v.size:
+                    try:
+                        v[...] = v + 1 if v.dtype.kind in "iuf" else v
+                    except (ValueError, TypeError):
+                        pass
+                elif isinstance(v, (tuple, list)):
+                    for w in v:
+                        scribble(w)
+            scribble(v0)
+            o2, v2, _ = monitor.call(fn, tuple(_variant(a, "C") for a in a1), dict(kw1), budget=400000, wall=40)
+            if o2 != "returned" or not _same(n0, _norm(v2)):
+                extra["alias"] = {"first_call": json.dumps(n0)[:160], "after_the_caller_overwrote_the_first_result": json.dumps(_norm(v2))[:160] if o2 == "returned" else "%s %s" % (o2, str(v2)[:160])}
+    except Exception:
+        extra = {}
+    return {"id": "%s#%d" % (name, wk), "fn": name, "events": events, "seed": seed, "wk": wk, "reuse": reuse, "extra": extra}
 
 
 def _public_inventory():
@@ -342,6 +378,11 @@ def run(ctx):
         if h.get("reuse"):
             ctx.violation("stale-after-in-place-update(%s)" % h["fn"].split("[")[0], {"kind": "dyn", "fn": h["fn"], "seed": h["seed"], "wk": h["wk"]},
                           h["reuse"], match="stale-after-in-place-update:%s" % h["fn"].split("[")[0])
+    for h in hist:
+        for key, clause in (("readonly", "needs-writeable-argument"), ("alias", "result-aliases-hidden-state")):
+            if (h.get("extra") or {}).get(key):
+                ctx.violation("%s(%s)" % (clause, h["fn"].split("[")[0]), {"kind": "dyn", "fn": h["fn"], "seed": h["seed"], "wk": h["wk"]},
+                              h["extra"][key], match="%s:%s" % (clause, h["fn"].split("[")[0]))
     for cid, vs in rej.items():
         h = byname[cid.rsplit("@", 1)[0]]
         name = h["fn"]
@@ -382,6 +423,9 @@ def replay(ctx, obj):
     h = _history((c["fn"], c.get("seed", 0), c.get("wk", 0)))
     if h.get("reuse"):
         ctx.violation("stale-after-in-place-update(%s)" % c["fn"].split("[")[0], c, h["reuse"])
+    for key, clause in (("readonly", "needs-writeable-argument"), ("alias", "result-aliases-hidden-state")):
+        if (h.get("extra") or {}).get(key):
+            ctx.violation("%s(%s)" % (clause, c["fn"].split("[")[0]), c, h["extra"][key])
     rej = ctx.trace("Purity", _split_cases(h))
     for cid, vs in rej.items():
         ctx.violation("%s(%s)" % (vs[0][0], c["fn"].split("[")[0]), c, {"verdict": vs[0], "events": h["events"]})
